@@ -319,7 +319,12 @@ class ClientCtx:
             rec['ret_step'] = s.steps
             rec['outcome'] = 'raise'
             rec['exc'] = type(e).__name__
-            rec['msg'] = str(e)[-400:]
+            parts = []
+            x: Any = e
+            while x is not None and len(parts) < 5:
+                parts.append('%s: %s' % (type(x).__name__, str(x)))
+                x = x.__cause__ or x.__context__
+            rec['msg'] = ' <- '.join(parts)[-1200:]
             rec['exc_obj'] = e
             return e
         rec['ret_step'] = s.steps
